@@ -160,3 +160,63 @@ func short(e ast.Expr) string {
 func itoa(n int) string { return fmt.Sprint(n) }
 
 func hasPrefix(s, p string) bool { return strings.HasPrefix(s, p) }
+
+// ---------------------------------------------------------------------------
+// sharing a rule of another property
+
+var (
+	shareMemo     = map[string]*Ctx{}
+	shareErr      = map[string]any{}
+	shareRunning  = map[string]bool{}
+	shareMemoProg *eng.Prog
+)
+
+// Share evaluates rule fromRule of property fromProp (e.g. "C11", "R2") and adopts its
+// obligations under the current rule of this property.  The same structural fact is often a
+// necessary condition of more than one property; each check must establish it itself, because
+// each check is run and judged on its own.
+func (c *Ctx) Share(fromProp, fromRule string) {
+	if shareMemoProg != c.P {
+		shareMemo, shareErr, shareRunning, shareMemoProg = map[string]*Ctx{}, map[string]any{}, map[string]bool{}, c.P
+	}
+	sub, done := shareMemo[fromProp]
+	if !done {
+		if shareRunning[fromProp] || fromProp == c.Prop {
+			return
+		}
+		shareRunning[fromProp] = true
+		sub = NewCtx(c.P, fromProp)
+		func() {
+			defer func() {
+				if r := recover(); r != nil {
+					shareErr[fromProp] = r
+				}
+			}()
+			Get(fromProp).Run(sub)
+		}()
+		shareRunning[fromProp] = false
+		shareMemo[fromProp] = sub
+	}
+	want := fromProp + "." + fromRule
+	n := 0
+	for _, o := range sub.Obls {
+		if o.Rule != want {
+			continue
+		}
+		n++
+		cp := *o
+		cp.Rule = c.rule
+		cp.Desc = o.Desc + " [shared " + want + "]"
+		c.Obls = append(c.Obls, &cp)
+	}
+	for f := range sub.Funcs {
+		c.Funcs[f] = true
+	}
+	if n == 0 {
+		// the rule produced nothing: its anchors failed (or the other property stopped before it)
+		if r := shareErr[fromProp]; r != nil {
+			panic(r)
+		}
+		panic(AnchorError{c.rule + ": shared rule " + want + " produced no obligation"})
+	}
+}
